@@ -66,6 +66,7 @@ impl PacketHeader {
 
 impl IndexPacketHeader {
     const ID: u8 = 0;
+    const SIZE: usize = 16;
 //@fn src/packet.rs IndexPacketHeader read serves=C03,C08,C09 ret=r
 //@rw reader: &mut dyn Read ==> reader: &mut PagedReader
 //@rw u16::from_le_bytes\(buffer\[(\d+)\.\.(\d+)\]\.try_into\(\)\.internal_err\(WRONG_OFFSET\)\?\) ==> shim_le_u16(&buffer, \1, \2)?
@@ -100,6 +101,7 @@ impl DataPacketHeader {
 
 impl IgnoredPacketHeader {
     const ID: u8 = 2;
+    const SIZE: usize = 4;
 //@fn src/packet.rs IgnoredPacketHeader read serves=C03,C08,C09 ret=r
 //@rw reader: &mut dyn Read ==> reader: &mut PagedReader
 //@rw u16::from_le_bytes\(buffer\[(\d+)\.\.(\d+)\]\.try_into\(\)\.internal_err\(WRONG_OFFSET\)\?\) ==> shim_le_u16(&buffer, \1, \2)?
@@ -258,4 +260,208 @@ impl<'a> QueueReader<'a> {
                     && self.queues@[j]@ =~= old(self).queues@[j]@.subrange(1, old(self).queues@[j]@.len() as int),
                 forall|j: int| i <= j < self.n() ==> self.queues@[j] == old(self).queues@[j],
 //@endfn
+}
+
+// ---- advance / parse_byte_streams -------------------------------------------------------------
+/// files are smaller than 512 PiB (keeps 8*offset inside usize; an assumption about the environment)
+spec const MAX_FILE: int = 0x0800_0000_0000_0000;
+/// every record is zero-width (min == max everywhere) and there is at least one: data packets then
+/// carry no information about the number of points (finding F4)
+spec fn all_zero_width(p: Seq<Record>) -> bool { p.len() > 0 && !has_sized(p) }
+/// state-independent trigger for per-stream quantifiers
+spec fn idx(i: int) -> bool { true }
+/// sum of the first j byte-stream sizes announced in the data packet starting at logical offset `start`
+spec fn sum_sizes(rd: &PagedReader, start: int, j: int) -> int
+    decreases j
+{ if j <= 0 { 0 } else { sum_sizes(rd, start, j - 1) + rd.l16(start + 6 + 2 * (j - 1)) } }
+
+proof fn lemma_sum_sizes_nonneg(rd: &PagedReader, start: int, j: int)
+    ensures sum_sizes(rd, start, j) >= 0
+    decreases j
+{ if j > 0 { lemma_sum_sizes_nonneg(rd, start, j - 1); } }
+
+impl<'a> QueueReader<'a> {
+    /// C09 potential: what sits in memory for stream i is paid for by input bytes already consumed
+    spec fn paid(&self, i: int) -> bool {
+        let bs = self.byte_streams@[i]; let q = self.queues@[i]@;
+        &&& bs.buffer@.len() <= self.reader.offset
+        &&& q.len() <= 8 * self.reader.offset
+        &&& (self.pc.prototype@[i].data_type.spec_bit_size() > 0 ==> q.len() + bs.rest().len() <= 8 * self.reader.offset)
+    }
+    spec fn wf2(&self) -> bool {
+        &&& self.reader.wf()
+        &&& self.reader.log_file_size <= MAX_FILE
+        &&& proto_ok(self.pc.prototype@)
+        &&& self.buffer_sizes@.len() == self.n() && self.byte_streams@.len() == self.n() && self.queues@.len() == self.n()
+        &&& forall|i: int| 0 <= i < self.n() ==> (#[trigger] self.byte_streams@[i]).wf()
+        &&& forall|i: int| #[trigger] idx(i) && 0 <= i < self.n() ==> self.paid(i)
+    }
+
+//@fn src/queue_reader.rs QueueReader advance serves=C03,C08,C09,C17,C01 ret=r
+//@rw vec!\[0; ([^;]*)\];\n ==> shim_vec_u8_zeros(\1);\n
+//@rw u16::from_le_bytes\(buf\) ==> shim_u16_from_le_bytes(buf)
+//@rw for \(i, bs\) in self\.buffer_sizes\.iter\(\)\.enumerate\(\) \{ ==> for i in 0..self.buffer_sizes.len() { let bs = &self.buffer_sizes[i];
+//@rw self\.buffer\.resize\(\*bs, 0_u8\) ==> shim_resize_u8(&mut self.buffer, *bs)
+//@rw for \(i, bs\) in self\.byte_streams\.iter\(\)\.enumerate\(\) \{ ==> for i in 0..self.byte_streams.len() { let bs = &self.byte_streams[i];
+//@rw for i in 0\.\.self\.buffer_sizes\.len\(\) ==> for i in it: 0..self.buffer_sizes.len()
+//@rw for i in 0\.\.self\.byte_streams\.len\(\) ==> for i in it: 0..self.byte_streams.len()
+//@sig
+        requires old(self).wf2(),
+            // excluding precondition of known finding F4 (all records zero-width): see advance__F4 below
+            !all_zero_width(old(self).pc.prototype@),
+        ensures
+            final(self).reader.wf(), final(self).reader.same_file(&*old(self).reader), final(self).pc == old(self).pc,
+            match r {
+                Ok(_) => ({
+                    let start = old(self).reader.offset as int;
+                    let rd = &*old(self).reader;
+                    let kind = rd.lbyte(start);
+                    &&& final(self).wf2()
+                    // progress: every successful call consumes input (termination of the iterators, C09)
+                    &&& final(self).reader.offset > old(self).reader.offset
+                    // C03: index and ignored packets are skipped by exactly their declared length
+                    &&& ((kind == 0u8 || kind == 2u8) ==> final(self).reader.offset == up4(start + rd.l16(start + 2) + 1)
+                            && final(self).queues == old(self).queues && final(self).byte_streams == old(self).byte_streams)
+                    // data packet: header, n sizes, then the streams, then alignment
+                    &&& (kind == 1u8 ==> final(self).reader.offset == up4(start + 6 + 2 * old(self).n() + sum_sizes(rd, start, old(self).n())))
+                    &&& forall|i: int| 0 <= i < old(self).n() ==> (#[trigger] final(self).queues@[i])@.len() >= old(self).queues@[i]@.len()
+                }),
+                Err(_) => true },
+//@body_start
+        let ghost start = self.reader.offset as int;
+        let ghost n = self.n();
+//@loop 0 head
+                    invariant
+                        start == old(self).reader.offset, n == old(self).n(), n == self.n(), it.snapshot@.end == n,
+                        self.reader.wf(), self.reader.same_file(&*old(self).reader), self.pc == old(self).pc,
+                        self.reader.offset == start + 6 + 2 * i,
+                        self.byte_streams == old(self).byte_streams, self.queues == old(self).queues,
+                        self.buffer_sizes@.len() == n,
+                        forall|j: int| 0 <= j < i ==> #[trigger] self.buffer_sizes@[j] == old(self).reader.l16(start + 6 + 2 * j),
+//@loop 1 before
+                proof {
+                    assert forall|j: int| #[trigger] idx(j) && 0 <= j < n implies self.paid(j) by { assert(old(self).paid(j)); }
+                }
+//@loop 1 head
+                    invariant
+                        start == old(self).reader.offset, n == old(self).n(), n == self.n(), it.snapshot@.end == n,
+                        self.reader.wf(), self.reader.same_file(&*old(self).reader), self.pc == old(self).pc,
+                        self.reader.log_file_size <= MAX_FILE,
+                        self.reader.offset == start + 6 + 2 * n + sum_sizes(&*old(self).reader, start, i as int),
+                        self.queues == old(self).queues,
+                        self.buffer_sizes@.len() == n, self.byte_streams@.len() == n, self.queues@.len() == n,
+                        forall|j: int| 0 <= j < n ==> #[trigger] self.buffer_sizes@[j] == old(self).reader.l16(start + 6 + 2 * j),
+                        forall|j: int| 0 <= j < n ==> (#[trigger] self.byte_streams@[j]).wf(),
+                        forall|j: int| #[trigger] idx(j) && 0 <= j < n ==> self.paid(j),
+//@loop 1 body_start
+                    let ghost pre = *self;
+                    proof { assert(idx(i as int)); assert(self.paid(i as int)); }
+//@loop 1 body_end
+                    proof {
+                        assert forall|j: int| #[trigger] idx(j) && 0 <= j < n implies self.paid(j) by {
+                            assert(pre.paid(j));
+                            if j != i { assert(self.byte_streams@[j] == pre.byte_streams@[j]); }
+                        }
+                    }
+//@loop 2 before
+                let ghost pre2 = *self;
+//@loop 2 head
+                    invariant
+                        *self == pre2, n == self.n(), it.snapshot@.end == n,
+                        self.reader.wf(), self.reader.log_file_size <= MAX_FILE,
+                        self.byte_streams@.len() == n, self.queues@.len() == n,
+                        forall|j: int| 0 <= j < n ==> (#[trigger] self.byte_streams@[j]).wf(),
+                        forall|j: int| #[trigger] idx(j) && 0 <= j < n ==> self.paid(j),
+                        min_queue_size == usize::MAX || min_queue_size <= 8 * self.reader.offset,
+                        forall|j: int| 0 <= j < i && j < n && self.pc.prototype@[j].data_type.spec_bit_size() > 0 ==> min_queue_size <= 8 * self.reader.offset,
+//@stmt 0 before let items = bs_items \+ queue_items
+                        proof {
+                            let a = bs.rest().len() as int; let d = bit_size as int;
+                            assert(a / d <= a) by (nonlinear_arith) requires a >= 0, d >= 1;
+                            assert(idx(i as int));
+                            assert(self.paid(i as int));
+                        }
+//@call parse_byte_streams 0 before
+                proof {
+                    lemma_sum_sizes_nonneg(&*old(self).reader, start, n);
+                    assert(has_sized(self.pc.prototype@));
+                    let j = choose|j: int| 0 <= j < self.pc.prototype@.len() && (#[trigger] self.pc.prototype@[j]).data_type.spec_bit_size() > 0;
+                    assert(min_queue_size <= 8 * self.reader.offset);
+                }
+//@endfn
+
+//@fn src/queue_reader.rs QueueReader parse_byte_streams serves=C03,C08,C09 ret=r
+//@rw for \(i, r\) in self\.pc\.prototype\.iter\(\)\.enumerate\(\) \{ ==> for i in 0..self.pc.prototype.len() { let r = &self.pc.prototype[i];
+//@sig
+        requires old(self).wf2(), min_queue_size <= 8 * old(self).reader.offset,
+        ensures final(self).wf2(), r is Ok,
+            *final(self).reader == *old(self).reader, final(self).pc == old(self).pc, final(self).buffer_sizes == old(self).buffer_sizes,
+            forall|i: int| 0 <= i < old(self).n() ==> (#[trigger] final(self).queues@[i])@.len() >= old(self).queues@[i]@.len(),
+//@loop 0 head
+            invariant
+                self.wf2(), *self.reader == *old(self).reader, self.pc == old(self).pc, self.buffer_sizes == old(self).buffer_sizes,
+                min_queue_size <= 8 * self.reader.offset, old(self).queues@.len() == self.n(),
+                forall|j: int| 0 <= j < self.n() ==> (#[trigger] self.queues@[j])@.len() >= old(self).queues@[j]@.len(),
+//@loop 0 body_start
+            proof {
+                match self.pc.prototype@[i as int].data_type {
+                    RecordDataType::ScaledInteger { min, max, .. } => lemma_width(min, max),
+                    RecordDataType::Integer { min, max } => lemma_width(min, max),
+                    _ => {}
+                }
+                assert(idx(i as int)); assert(self.paid(i as int));
+            }
+            let ghost pre = *self;
+//@loop 0 body_end
+            proof {
+                let w = pre.pc.prototype@[i as int].data_type.spec_bit_size();
+                if w > 0 {
+                    let len = pre.byte_streams@[i as int].rest().len() as int;
+                    let k = len / w;
+                    vstd::arithmetic::div_mod::lemma_fundamental_div_mod(len, w);
+                    vstd::arithmetic::div_mod::lemma_mod_bound(len, w);
+                    assert(w * k == k * w) by (nonlinear_arith);
+                    assert(k <= k * w) by (nonlinear_arith) requires w >= 1, k >= 0;
+                    assert(self.byte_streams@[i as int].rest().len() == len - k * w);
+                }
+                lemma_paid_step(pre, *self, i as int);
+                assert forall|j: int| 0 <= j < self.n() implies (#[trigger] self.queues@[j])@.len() >= old(self).queues@[j]@.len() by {
+                    assert(pre.queues@[j]@.len() >= old(self).queues@[j]@.len());
+                    if j != i { assert(self.queues@[j] == pre.queues@[j]); }
+                }
+            }
+//@loop 1 head
+                            invariant
+                                self.reader == pre.reader, self.pc == pre.pc, self.buffer_sizes == pre.buffer_sizes, self.byte_streams == pre.byte_streams,
+                                self.queues@.len() == pre.queues@.len(), i < self.queues@.len(),
+                                forall|j: int| 0 <= j < self.queues@.len() && j != i ==> self.queues@[j] == pre.queues@[j],
+                                self.queues@[i as int]@.len() >= pre.queues@[i as int]@.len(),
+                                self.queues@[i as int]@.len() <= min_queue_size || self.queues@[i as int]@.len() == pre.queues@[i as int]@.len(),
+                            decreases min_queue_size - self.queues@[i as int]@.len(),
+//@loop 2 head
+                            invariant
+                                self.reader == pre.reader, self.pc == pre.pc, self.buffer_sizes == pre.buffer_sizes, self.byte_streams == pre.byte_streams,
+                                self.queues@.len() == pre.queues@.len(), i < self.queues@.len(),
+                                forall|j: int| 0 <= j < self.queues@.len() && j != i ==> self.queues@[j] == pre.queues@[j],
+                                self.queues@[i as int]@.len() >= pre.queues@[i as int]@.len(),
+                                self.queues@[i as int]@.len() <= min_queue_size || self.queues@[i as int]@.len() == pre.queues@[i as int]@.len(),
+                            decreases min_queue_size - self.queues@[i as int]@.len(),
+//@endfn
+}
+
+/// one record handled by parse_byte_streams: only stream/queue i changed, and in a way that keeps it paid
+proof fn lemma_paid_step(pre: QueueReader, post: QueueReader, i: int)
+    requires pre.wf2(), 0 <= i < pre.n(),
+        post.reader == pre.reader, post.pc == pre.pc, post.buffer_sizes == pre.buffer_sizes,
+        post.byte_streams@.len() == pre.byte_streams@.len(), post.queues@.len() == pre.queues@.len(),
+        forall|j: int| 0 <= j < pre.n() && j != i ==> post.byte_streams@[j] == pre.byte_streams@[j] && post.queues@[j] == pre.queues@[j],
+        post.byte_streams@[i].wf(), post.byte_streams@[i].buffer@ == pre.byte_streams@[i].buffer@,
+        post.queues@[i]@.len() <= 8 * pre.reader.offset,
+        pre.pc.prototype@[i].data_type.spec_bit_size() > 0 ==>
+            post.queues@[i]@.len() + post.byte_streams@[i].rest().len() <= pre.queues@[i]@.len() + pre.byte_streams@[i].rest().len(),
+    ensures post.wf2()
+{
+    assert forall|j: int| #[trigger] idx(j) && 0 <= j < post.n() implies post.paid(j) by {
+        if j != i { assert(pre.paid(j)); } else { assert(pre.paid(i)); }
+    }
 }
